@@ -81,6 +81,17 @@ chk("C20",
     HV_NOTE + " Artists are compared as data (style class by colour/width/marker); pixels are out of scope.",
     "TLC-generated behaviours replayed on real objects; read-only verdict by TLC trace validation; artists vs exact statistics", "DESIGN.md#c20")
 
+chk("C10",
+    "TLC checks the tiling lemmas (windows start on j*k, share their boundary sample, span k+1 samples, only the last may be one "
+    "short, tail shorter than a window, too long = error, exact multiples count in full) for every record length N<=80, k<=14 and "
+    "10 sampling rates, and exports every case; each is run through TimeSeries.split (all), SeismicRecording3C.split and preprocess "
+    "on ramp records so positions are readable. The step order is bound by factorisation: for every settings combination the "
+    "spec's step sequence is executed with the library's own primitives and must equal preprocess() bit for bit, while the wrong "
+    "orders must differ (non-vacuity).",
+    "Trusted: TLC; spec/Split.tla, spec/PreOrder.tla; the library's primitives (orient, Butterworth filter, detrend) as building "
+    "blocks of the factorisation (their own correctness is C04 / scipy's). Window lengths on the half-interval lattice only.",
+    "TLA+ kernel spec (Split, PreOrder) model-checked with TLC; one implementation test per TLC case; factorisation replay", "DESIGN.md#c10")
+
 def main():
     man = dict(
         version=1,
